@@ -5,7 +5,7 @@ from props import _family as F
 PROOF_MODULES = ["Jwt.Props.C02"]
 PROP_MODULES = ["Jwt.Props.C02"]
 PROP_FILES = ["Jwt/Props/C02.lean"]
-GENERATED_FACT_THEOREMS = 6   # AlgFacts: table equality, nodup x2, no_inval, isSome, exactness
+GENERATED_FACT_THEOREMS = 4
 CHECKER_CMD = "cd lean && lake build Jwt.Props.C02 && lake env lean <generated #print axioms file>"
 LEVEL_TEXT = ("Lean theorems for every Env/callback/token: setkey admission table, accept => header alg = pinned alg, "
               "every primitive call is family- and size-matched (trace), exact alg-name parsing over generated tables; "
